@@ -134,14 +134,20 @@ def abs_comprehension(C, e, g, it, st, fr, as_list):
     ex = C.ex
     L = iter_to_abs(C, it, st, fr)
     names = {n.id for n in ast.walk(g.target) if isinstance(n, ast.Name)}
-    if not isinstance(g.target, ast.Name):
+    pair = (isinstance(g.target, ast.Tuple) and len(g.target.elts) == 2 and hasattr(L, 'pair_of')
+            and all(isinstance(t, ast.Name) for t in g.target.elts))
+    if not isinstance(g.target, ast.Name) and not pair:
         raise Unsupported('comprehension target')
-    xv = z3.Const(fresh_name(g.target.id), elem_sort(C, L.ek))
+    tname = g.target.elts[0].id if pair else g.target.id
+    xv = z3.Const(fresh_name(tname), elem_sort(C, L.ek))
     xsv = C.wrap(L.ek, xv)
     cfr = ex.new_frame(st, None, fr.fid, fr.owner, fr.module, locals_set=names)
     cfr.func = fr.func
     scratch = st.fork()
-    scratch.envs[cfr.fid] = {g.target.id: xsv}
+    scratch.envs[cfr.fid] = {tname: xsv}
+    if pair:
+        # iteration over dict.items(): (key, value-at-key)
+        scratch.envs[cfr.fid][g.target.elts[1].id] = L.pair_of(xv)
     scratch.assume(L.mem(xv))
     for f in L.facts:
         scratch.assume(f(xv))
@@ -160,7 +166,7 @@ def abs_comprehension(C, e, g, it, st, fr, as_list):
         scratch.assume(cc)
     cond = z3.simplify(cond)
     # element expression
-    identity = isinstance(e.elt, ast.Name) and e.elt.id == g.target.id
+    identity = isinstance(e.elt, ast.Name) and e.elt.id == tname
     mem = lambda t, _c=cond, _x=xv: z3.And(L.mem(t), z3.substitute(_c, (_x, t)))    # noqa
     n = fresh_int('len_comp')
     st.assume(n >= 0)
